@@ -49,10 +49,10 @@ def parse_summary(path):
 
 def run(ctx):
     ctx.level = "proof"
-    status = vlib.proof_status(PID, extra_targets=["C17/Extract.v", "C17/FloatRemark.v"])
+    status = vlib.proof_status(PID, extra_targets=["C17/Extract.v", "C17/ExtractFloat.v", "C17/FloatExecProofs.v", "C17/FloatRemark.v"])
     ctx.proof_gate(status)
     drv = vlib.build_ocaml_driver("c17_driver", os.path.join(vlib.COQ, "extracted"),
-                                  os.path.join(ctx.prop_dir, "driver", "c17_driver.ml"), only=["c17_model"])
+                                  os.path.join(ctx.prop_dir, "driver", "c17_driver.ml"), only=["c17_model", "c17_float"])
     replay_case = None
     if ctx.replay:
         r = json.load(open(ctx.replay))
@@ -103,6 +103,28 @@ def run(ctx):
                       % (mism, first.group(0)[:900] if first else mlog[-500:]),
                       {"case": first.group(1) if first else None, "correspondence": "props/C17 figure comparison within max(n,1)*2^-50",
                        "driver_output": mlog[:3000]}, found_input=False)
+    # bit-exact comparison with the extracted Flocq binary64 model (coq/C17/FloatExec.v)
+    fm = re.search(r"FLOAT-MISMATCHES rate (\d+) load (\d+)", mlog)
+    fc = re.search(r"FLOAT-COMPARED rate_calls (\d+) rate_values (\d+) load_calls (\d+) load_large_rates_only (\d+) orders (\d+) "
+                   r"order_dependent_totals (\d+) skipped_zero_baud (\d+)", mlog)
+    fcnt = dict(zip(["rate_calls", "rate_values", "load_calls", "load_large_rates_only", "orders", "order_dependent_totals",
+                     "skipped_zero_baud"], map(int, fc.groups()))) if fc else {}
+    fbad = {"rate": int(fm.group(1)), "load": int(fm.group(2))} if fm else {"rate": -1, "load": -1}
+    for kind, sig, what in (("rate", "c17-float-rate-bits", "a BitsPerSec differs from float64(msgBits)/float64(cycleTime)*1000 of the Flocq binary64 model"),
+                            ("load", "c17-float-load-bits", "the load and the Percentages are not the Flocq binary64 model's for any visiting order of the messages")):
+        if fbad[kind] > 0:
+            first = re.search(r"FLOATMISMATCH %s\n  fcase =(.*)\n  fwhy  =(.*)" % kind, mlog)
+            ctx.violation(sig, "%s on %d call(s) (bit-exact comparison; the float theorems load_float_close, rate_float_close, pct_float_close, "
+                               "load_float_monotone no longer speak about this code). first: %s"
+                          % (what, fbad[kind], first.group(0)[:900] if first else ""),
+                          {"case": first.group(1) if first else None, "why": first.group(2) if first else None,
+                           "correspondence": "props/C17 bit-exact comparison with coq/extracted/c17_float.ml"}, found_input=False)
+    if not ctx.replay and mism == 0 and not new_propfail and (not fc or not fm or fcnt.get("rate_calls", 0) < 200 or fcnt.get("load_calls", 0) < 100
+                                                              or fcnt.get("order_dependent_totals", 0) < 1):
+        # floor: a run that compared (almost) nothing bit-exactly proves nothing about the float model
+        ctx.violation("c17-float-compare-count", "the driver compared too few calls bit-exactly with the Flocq model: %s (floors: 200 rate calls, "
+                      "100 load calls, 1 call whose total depends on the visiting order)" % (fcnt or mlog[-300:]),
+                      {"driver_output": mlog[-2000:]}, found_input=False)
     if ctx.replay:
         print(open(out).read()[:3000])
         print(mlog)
@@ -131,6 +153,11 @@ def run(ctx):
                 "non-trivial = distinct bus with at least two different exact rates, non-zero baud rate and positive default",
         "distribution": summ["hist"],
         "model_mismatches": mism,
+        "float_bit_exact": dict(fcnt, mismatches_rate=fbad["rate"], mismatches_load=fbad["load"],
+                                what="rate_calls: calls whose every BitsPerSec equals the extracted Flocq rate_x (= rate_float) exactly; "
+                                     "load_calls: calls with <= 6 messages whose load and every Percentage equal load_of_total / pct_f of the "
+                                     "float total of ONE visiting order (all permutations enumerated); load_large_rates_only: calls with more "
+                                     "messages (rates only); skipped_zero_baud: Go returns early, the float model is not defined"),
         "property_predicate_failures": sorted(summ["propfail"]),
         "samples": summ["samples"][:6],
         "exhaustive": False,
@@ -141,7 +168,7 @@ def run(ctx):
                             "rate_float_close, rate_float_order / rate_float_strict / model_order_float_sorted (order under rounding), "
                             "load_float_monotone (same visiting order), pct_float_close (shares). trusted: Go's float64 is IEEE-754 binary64 round-to-nearest-even, int->float64 exact "
                             "below 2^53. tested on this run, not proved: that the two models "
-                            "restate utils.go (the exact model is compared call by call; the float model is tied by one bit-exact Example)",
+                            "restate utils.go (the exact model is compared call by call within the bound; the float model, extracted from coq/C17/FloatExec.v, is compared BIT-EXACTLY: every BitsPerSec on every call, load and shares for some visiting order on calls with <= 6 messages)",
         "degenerate_calls_not_compared": int((re.search(r"DEGENERATE-CALLS-NOT-COMPARED (\d+)", mlog) or [0, 0])[1]),
         "trusted_base": [
             "Coq 8.16.1 kernel (coqc; coqchk in the thorough tier); vm_compute only in closed Examples / refuted witnesses",
